@@ -23,7 +23,7 @@ def c07(ctx):
     ctx.build_test("internal/app/connectconformance", False, "cc")
     with cf.ThreadPoolExecutor(3) as ex:
         futs = [ex.submit(ctx.gotest, "cc", "^TestVerifC07Library$", timeout=2400, label="cc-c07-%d" % i, env={"VERIF_RUNIDX": str(i)}) for i in (0, 1)]
-        futs.append(ex.submit(ctx.gotest, "cc", "^TestVerifC07Embedded$", timeout=900))
+        futs.append(ex.submit(ctx.gotest, "cc", "^TestVerifC07(Embedded|ParseModeRules)$", timeout=900))
         [f.result() for f in futs]
     # same seed, two processes: Go randomises map iteration per process, the digests must agree
     import os
